@@ -452,6 +452,57 @@ theorem copyNDiscard_flat (s : Stack) (n : Nat) (hi : s.Inv) :
     | eof => simp [hne]
     | other => simp [hne]
 
+/-! ### ReadByte of a source that is an io.ByteScanner itself -/
+
+theorem filter_flatten (cs : List Bytes) : (cs.filter (fun c => c.length ≠ 0)).flatten = cs.flatten := by
+  induction cs with
+  | nil => rfl
+  | cons c cs ih =>
+    by_cases hc : c.length ≠ 0
+    · rw [List.filter_cons_of_pos (by exact decide_eq_true hc), List.flatten_cons, List.flatten_cons, ih]
+    · rw [List.filter_cons_of_neg (by simpa using hc), List.flatten_cons, ih]
+      have : c = [] := by
+        cases c with
+        | nil => rfl
+        | cons a as => simp at hc
+      rw [this, List.nil_append]
+
+theorem maxEmptyRun_filter (cs : List Bytes) : maxEmptyRun (cs.filter (fun c => c.length ≠ 0)) = 0 := by
+  induction cs with
+  | nil => rfl
+  | cons c cs ih =>
+    by_cases hc : c.length ≠ 0
+    · rw [List.filter_cons_of_pos (by exact decide_eq_true hc), maxEmptyRun_cons_nonempty _ _ hc, ih]
+    · rw [List.filter_cons_of_neg (by simpa using hc)]
+      exact ih
+
+theorem srcReadByte_spec : ∀ (cs : List Bytes),
+    (cs.flatten = [] → srcReadByte cs = none) ∧
+    (∀ c rest, cs.flatten = c :: rest → ∃ cs', srcReadByte cs = some (c, cs') ∧ cs'.flatten = rest ∧ maxEmptyRun cs' = 0)
+  | [] => ⟨fun _ => rfl, fun c rest h => by simp at h⟩
+  | [] :: cs => by
+    obtain ⟨h1, h2⟩ := srcReadByte_spec cs
+    refine ⟨fun h => ?_, fun c rest h => ?_⟩
+    · rw [srcReadByte]; exact h1 (by simpa using h)
+    · rw [srcReadByte]; exact h2 c rest (by simpa using h)
+  | (b :: bs) :: cs => by
+    refine ⟨fun h => by simp at h, fun c rest h => ?_⟩
+    simp only [List.flatten_cons, List.cons_append, List.cons.injEq] at h
+    obtain ⟨rfl, rfl⟩ := h
+    exact ⟨_, rfl, by rw [filter_flatten]; simp, maxEmptyRun_filter _⟩
+
+theorem srcReadByte_flat (s : Src) (hi : (Stack.src s).Inv) :
+    ((Stack.src s).content = [] → (Stack.src s).readByte = .err (Stack.src s).fin) ∧
+    (∀ c rest, (Stack.src s).content = c :: rest →
+      ∃ s', (Stack.src s).readByte = .ok (c, s') ∧ s'.Inv ∧ s'.content = rest ∧ s'.fin = (Stack.src s).fin) := by
+  obtain ⟨h1, h2⟩ := srcReadByte_spec s.chunks
+  refine ⟨fun hc => ?_, fun c rest hc => ?_⟩
+  · simp only [Stack.readByte, h1 hc]; rfl
+  · obtain ⟨cs', e1, e2, e3⟩ := h2 c rest hc
+    refine ⟨.src { s with chunks := cs' }, by simp only [Stack.readByte, e1], ⟨hi.1, ?_⟩, e2, rfl⟩
+    show maxEmptyRun cs' < _
+    rw [e3]; simp [maxConsecutiveEmptyReads]
+
 /-! ### histories: every state a stack can get into through the Decoder's primitives -/
 
 /-- `Reach s t`: `t` is what `s` has become after some sequence of `Read` calls (any sizes) and successful `ReadByte` calls on it -/
@@ -528,6 +579,21 @@ theorem reach_buf {i : Stack} {sz : Nat} {p : Bytes} {e : Option ErrClass} {u : 
     obtain ⟨i2, p2, e2, h2, r2⟩ := buf_byte_shape i1 sz p1 e1 _ _ hsz hb
     exact ⟨i2, p2, e2, h2, Reach.trans r1 r2⟩
 
+/-- a bare source stays a bare source -/
+theorem reach_src {s : Src} {u : Stack} (h : Reach (.src s) u) : ∃ s', u = .src s' := by
+  induction h with
+  | refl => exact ⟨s, rfl⟩
+  | read k hk _ ih =>
+    obtain ⟨s1, rfl⟩ := ih
+    exact ⟨_, rfl⟩
+  | byte _ hb ih =>
+    obtain ⟨s1, rfl⟩ := ih
+    simp only [Stack.readByte] at hb
+    split at hb
+    · simp only [Outcome.ok.injEq, Prod.mk.injEq] at hb
+      exact ⟨_, hb.2.symm⟩
+    · cases hb
+
 /-- histories preserve the invariant and only ever consume a prefix of the flat content -/
 theorem reach_law {s t : Stack} (h : Reach s t) (hi : s.Inv) :
     t.Inv ∧ (∃ x, s.content = x ++ t.content) ∧ t.fin = s.fin := by
@@ -550,7 +616,16 @@ theorem reach_law {s t : Stack} (h : Reach s t) (hi : s.Inv) :
         simp only [Outcome.ok.injEq, Prod.mk.injEq] at hb
         obtain ⟨rfl, rfl⟩ := hb
         exact ⟨e2, ⟨x ++ [c'], by rw [g2, hc, e3]; simp⟩, by rw [e4, g3]⟩
-    | .src _, _, hb => simp [Stack.readByte] at hb
+    | .src s0, g1, hb =>
+      obtain ⟨f1, f2⟩ := srcReadByte_flat s0 g1
+      cases hc : (Stack.src s0).content with
+      | nil => rw [f1 hc] at hb; cases hb
+      | cons c' rest =>
+        obtain ⟨s', e1, e2, e3, e4⟩ := f2 c' rest hc
+        rw [e1] at hb
+        simp only [Outcome.ok.injEq, Prod.mk.injEq] at hb
+        obtain ⟨rfl, rfl⟩ := hb
+        exact ⟨e2, ⟨x ++ [c'], by rw [g2, hc, e3]; simp⟩, by rw [e4, g3]⟩
     | .lim _ _, _, hb => simp [Stack.readByte] at hb
 
 /-- a limited layer stays a limited layer over a later state of the layer below, and its count goes down by exactly what the
